@@ -23,7 +23,7 @@ from guppylang_internals.cfg.builder import CFGBuilder  # noqa: E402
 from guppylang_internals.checker.core import Globals  # noqa: E402
 from guppylang_internals.nodes import IterNext, MakeIter, NestedFunctionDef  # noqa: E402
 
-OPAQUE = ("f", "g", "h", "result", "emit")
+OPAQUE = ("f", "g", "h", "ff", "result", "emit")
 
 
 class Panic(Exception):
@@ -47,6 +47,8 @@ class Rec:
             self.trace.append((name, args))
             if name in ("result", "emit"):
                 return None
+            if name == "ff":
+                return 2.5       # an opaque float-valued call: its event matters, its value is a fixed binary64 number
             return self.rets[i] if i < len(self.rets) else 0
 
         fn.__name__ = name
